@@ -215,6 +215,7 @@ pub fn finish(rep: Report, spaces: &[Box<dyn Space>], results: Vec<SpaceResult>,
     // violations: aggregate by signature over all spaces (first space/index wins), confirm by re-execution,
     // write one replay file per signature
     let mut nviol = 0u64;
+    let mut confirmed = 0u64;
     let dir = format!("{}/replays/{}", VERIF, rep.prop);
     let _ = std::fs::create_dir_all(&dir);
     violations.sort_by(|a, b| (a.0, a.3).cmp(&(b.0, b.3)));
@@ -245,6 +246,7 @@ pub fn finish(rep: Report, spaces: &[Box<dyn Space>], results: Vec<SpaceResult>,
             "signature": sig, "occurrences": n, "detail": detail, "case": spaces[*si].describe(*idx),
         });
         let _ = std::fs::write(&path, serde_json::to_string_pretty(&body).unwrap());
+        confirmed += 1;
         println!("VIOLATION property={} replay={}", rep.prop, path);
         println!("  signature: {}\n  occurrences: {}\n  first at: {}[{}]\n  detail: {}", sig, n, results[*si].name, idx, detail);
     }
@@ -275,10 +277,11 @@ pub fn finish(rep: Report, spaces: &[Box<dyn Space>], results: Vec<SpaceResult>,
     let _ = std::fs::create_dir_all(format!("{}/evidence", VERIF));
     std::fs::write(format!("{}/evidence/{}.json", VERIF, rep.prop), serde_json::to_string_pretty(&ev).unwrap()).expect("write evidence");
     eprintln!("[{}] tier={} evaluations={} transitions={} distinct_outcomes={} known={} violations={} wall={:.1}s", rep.prop, rep.tier, evaluations, transitions, keys.len(), known_seen.len(), nviol, wall);
-    if machinery_fail {
-        2
-    } else if nviol > 0 {
+    // a confirmed, printed violation is a verdict even if some other observation could not be confirmed
+    if confirmed > 0 {
         1
+    } else if machinery_fail || nviol > 0 {
+        2
     } else {
         0
     }
